@@ -4,6 +4,8 @@ CONSTANTS
   NComp <- MCNComp
   Kind <- MCKind
   Order <- MCOrder
+  Shared <- MCShared
+  TotalKind = "own"
   MaxVer = 4
   MaxLate = 2
   CloudKind = "std"
